@@ -10,6 +10,26 @@ BASELINE_OFF = ("for m in $(cat /w/out/gomods.txt); do MF=$(cd /repo/$m && . /w/
 
 # id -> (technique, level text, level note, design ref)
 CHECKS = {
+    "C06": (
+        "NodeDB.tla contract model checked by TLC; one history per distinct (operation, state) pair replayed on real badger and "
+        "pathbadger with full read-back after every step, plus a full reader at every durable-write point (hook H1)",
+        "Exhaustive TLC exploration of the contract model (versions 0..3, <=2 candidates per version and type, both root types, "
+        "same-version chains, pruning lag); every emitted history is executed on both real backends and every retained finalized "
+        "root, pending candidate and still-claimed discarded candidate is read back completely after every operation and at every "
+        "intermediate durable state inside Commit/Finalize/Prune.",
+        "Trusted: TLC, JSON bridge, hook H1 placement. Well-formed API use only; declined operations are observations. Three open "
+        "known findings, all on the legacy badger backend, are matched by backend + sharing/chain diagnostics; anything on "
+        "pathbadger or outside those shapes alarms.",
+        "DESIGN.md 4 C06"),
+    "C07": (
+        "NodeDBCrash.tla enumerates (history, interrupted operation, durable step) triples; each is executed in a child process that "
+        "dies at the H1 hook point; the parent reopens, reads back, retries and continues, with the model's pre/post states as oracle",
+        "Fault enumeration driven by the model: every durable-write point of Commit, Finalize and Prune on both backends, composed "
+        "with TLC-enumerated preceding histories; after the crash the finalized state must equal the model's state before or after the "
+        "operation (full read-back), the retry must reach the post-state and the rest of the history must run correctly.",
+        "Trusted: TLC, JSON bridge, hook H1 (names checked against the spec's step lists in both directions). Process death, not "
+        "power loss; no crash inside one Badger flush; multipart restore crash points are not covered here.",
+        "DESIGN.md 4 C07"),
     "C13": (
         "WriteLog.tla (coalesced log, apply, single corruptions) checked by TLC; TLC-enumerated cases replayed on real "
         "NodeDB.GetWriteLog and storage RootCache.Apply on badger and pathbadger with TLC's accept/reject verdict as oracle",
